@@ -80,8 +80,8 @@ MANIFEST = {
             'arithmetic and narrowing casts are never re-wrapped -> fixes/C23-rewrap-narrow.diff; ptr uses signed / % >> '
             'and compares, same-size sign casts are elided, i32->u64 zero-extends (known findings). Loads/stores: every exported row proved against '
             'WasmMemSpec/IRSem byte encodings (c23_loadstore_table_sound); all casts exact once cast_bad_rows is empty '
-            '(c23_cast_exact, after fixes/C23-subword-sign-cast.diff and C23-cast-i32-u64-sign-extend.diff). Constants and '
-            'unary operators have no theorem; ptr signedness is not repaired (ptr is selected as I32 before do_tree)',
+            '(c23_cast_exact, after fixes/C23-subword-sign-cast.diff and C23-cast-i32-u64-sign-extend.diff). Unary operators: every NEG row proved '
+            '(c23_unop_table_exact; INV and unsigned NEG are rejected by ppci). Constants have no theorem; ptr signedness is not repaired (ptr is selected as I32 before do_tree)',
     'technique': 'verified validator + reflected operator table + differential execution',
 }
 
@@ -693,6 +693,22 @@ def cast_module(ir, fromname, toname):
     return m
 
 
+def unop_module(ir, op, tyname):
+    ty = irty(ir, tyname)
+    m = ir.Module('m')
+    f = ir.Function('f', ir.Binding.GLOBAL, ty)
+    m.add_function(f)
+    a = ir.Parameter('a', ty)
+    f.add_parameter(a)
+    blk = ir.Block('e')
+    f.add_block(blk)
+    f.entry = blk
+    r = ir.Unop(op, a, 'r', ty)
+    blk.add_instruction(r)
+    blk.add_instruction(ir.Return(r))
+    return m
+
+
 def load_module(ir, tyname):
     ty = irty(ir, tyname)
     m = ir.Module('m')
@@ -794,6 +810,23 @@ def export_tables(ctx):
                 cv = CONVS[body[0][0]]
                 body = body[1:]
             castrows.append((fr, to, cv, post_of(body, 'cast %s->%s' % (fr, to))))
+    unrows = []
+    for tyname in TYS:
+        for op in ('-', '~'):
+            try:
+                ins = func_instrs(compile_module(unop_module(ir, op, tyname)))
+            except Exception as ex:
+                rejected.append(('unop ' + op, tyname, type(ex).__name__))
+                continue
+            body = [(o, a) for o, a in ins if o not in ('local.set', 'return')]
+            if body and body[-1][0] == 'local.get':
+                body = body[:-1]          # the `return r`
+            head = [(o, (a[0] if a and isinstance(a[0], int) else None)) for o, a in body[:3]]
+            w = head[0][0][:3] if head else ''
+            if op != '-' or head != [(w + '.const', 0), ('local.get', None), (w + '.sub', None)] or w not in ('i32', 'i64'):
+                raise TieBroken('unexpected code for unary %s %s: %r' % (op, tyname, ins))
+            unrows.append((tyname, {'i32': 'W32', 'i64': 'W64'}[w], post_of(body[3:], 'neg %s' % tyname)))
+    ctx.unrows = unrows
     ldrows, strows = [], []
     for tyname in TYS:
         for kind, mk, acc in (('load', load_module, ldrows), ('store', store_module, strows)):
@@ -818,6 +851,9 @@ def export_tables(ctx):
     text.append('Definition casttable : list (ty * ty * conv * post) := [')
     text.append(';\n'.join('  (%s, %s, %s, %s)' % (TYC[f], TYC[t], cv, p) for f, t, cv, p in castrows))
     text.append('].')
+    text.append('Definition untable : list (ty * width * post) := [')
+    text.append(';\n'.join('  (%s, %s, %s)' % (TYC[t], w, p) for t, w, p in unrows))
+    text.append('].')
     text.append('Definition loadtable : list (ty * width * nat * bool) := [')
     text.append(';\n'.join('  (%s, %s, %d%%nat, %s)' % (TYC[t], cw, n, 'true' if sx else 'false') for t, cw, n, sx in ldrows))
     text.append('].')
@@ -825,7 +861,7 @@ def export_tables(ctx):
     text.append(';\n'.join('  (%s, %s, %d%%nat)' % (TYC[t], cw, n) for t, cw, n, sx in strows))
     text.append('].')
     ctx.write_gen('Tab_ir2wasm', '\n'.join(text) + '\n')
-    ctx.cov['stages']['op_table'] = {'rows': len(rows), 'cmp_rows': len(crows), 'cast_rows': len(castrows), 'load_rows': len(ldrows), 'store_rows': len(strows),
+    ctx.cov['stages']['op_table'] = {'rows': len(rows), 'cmp_rows': len(crows), 'cast_rows': len(castrows), 'neg_rows': len(unrows), 'load_rows': len(ldrows), 'store_rows': len(strows),
                                      'rewrapped_rows': sum(1 for r in prows if r[2] != 'PNone'), 'rejected': len(rejected)}
     return rows, crows, rejected
 
@@ -1006,8 +1042,8 @@ def stage_ops(ctx, rows, crows):
             bits, sg = tybits[tyname]
             wbits = 64 if wop.startswith('i64') else 32
             pool = boundary(bits, sg)
-            if ctx.quick():
-                pool = pool[:: 2] + pool[-1:]
+            # whole boundary pool in both tiers (MIN, MIN+1, -1, 0, 1, MAX-1, MAX, ...): cheap, and the raw container
+            # returned by the python instance shows non-canonical upper bits directly
             first = worse = None
             for a in pool:
                 for b in pool:
@@ -1112,6 +1148,44 @@ def stage_casts(ctx):
                                'args': [a], 'expected': want, 'actual': got,
                                'how_to_replay': 'tools/props/c23.cast_module(ir, %r, %r) -> ir_to_wasm -> '
                                                 'instantiate(python).exports.f' % (fr, to)})
+    # ---- unary operators: every compiled row on the whole boundary pool (MIN, MIN+1, -1, 0, 1, MAX-1, MAX ...);
+    # the python instance returns the raw container, so non-canonical upper bits are visible directly
+    want_post = {'i8': 'PSext8', 'i16': 'PSext16'}
+    nun = 0
+    for tyname, wname, post in getattr(ctx, 'unrows', []):
+        if post != want_post.get(tyname, 'PNone'):
+            ctx.failed_stages.append(('unop_table', 'NEG %s is followed by %s, the proved form needs %s'
+                                      % (tyname, post, want_post.get(tyname, 'PNone'))))
+        m = unop_module(ir, '-', tyname)
+        try:
+            with quiet():
+                inst = instantiate_py(compile_module(m))
+        except Exception:
+            continue
+        fb, fs = (32, False) if tyname == 'ptr' else tybits[tyname]
+        wc = 64 if wname == 'W64' else 32
+        for a in boundary(fb, fs):
+            ref = irsem_py.run_main(m, 'f', [a], 50, cfg)
+            if not isinstance(ref, OkV):
+                continue
+            v = a & ((1 << wc) - 1)
+            v = v - (1 << wc) if v >> (wc - 1) else v
+            try:
+                with quiet():
+                    with time_limit(5):
+                        got = inst.exports.f(v)
+            except Exception as ex:
+                got = 'trap %s' % type(ex).__name__
+            nun += 1
+            if not isinstance(got, int) or (got - ref.v[0]) % (1 << wc) != 0:
+                ctx.violation({'fn': 'ir_to_wasm.unop', 'key': 'unop - %s' % tyname, 'op': '-', 'ty': tyname, 'args': [a],
+                               'expected': ref.v[0], 'actual': got, 'class': 'exact-row',
+                               'what': 'unary minus leaves a value outside the canonical form of its type',
+                               'how_to_replay': 'tools/props/c23.unop_module(ir, "-", %r) -> ir_to_wasm -> '
+                                                'instantiate(python).exports.f(%d)' % (tyname, v)})
+                break
+    n += nun
+    ctx.cov['stages']['unops_executed'] = nun
     ctx.cov['evaluations'] += n
     ctx.cov['disagreements_checked'] = ctx.cov.get('disagreements_checked', 0) + n
     ctx.cov['stages']['casts_executed'] = n
@@ -1311,7 +1385,7 @@ def run(ctx):
         ctx.failed_stages.append(('tie', str(ex)))
         rows, crows = [], []
     ok, _ = ctx.build(['Proofs/C23_shape.vo', 'Proofs/C23_ops.vo', 'Proofs/C23_data.vo', 'Proofs/C23_table.vo', 'Proofs/C23_doshape.vo',
-                       'Proofs/C23_post.vo', 'Proofs/C23_table2.vo', 'Proofs/C23_mem.vo', 'Proofs/C23_table3.vo'])
+                       'Proofs/C23_post.vo', 'Proofs/C23_table2.vo', 'Proofs/C23_mem.vo', 'Proofs/C23_table3.vo', 'Proofs/C23_unop.vo', 'Proofs/C23_table4.vo'])
     if ok:
         ctx.check_props('Props/C23.v')
     ctx.build(['Model/ShapeCheck.vo', 'Model/ShapeCompile.vo', 'Model/Ir2WasmOps.vo', 'Lib/Val.vo'])
